@@ -536,6 +536,20 @@ func (e *Engine) bitop(st *State, op token.Token, x, y Term, t types.Type) Term 
 		}
 		return BigLit(r)
 	}
+	// x & (2^k - 1) is x mod 2^k (Euclidean), for unsigned values and, in two's complement, for
+	// negative ones as well
+	if op == token.AND {
+		if oky && yl.Sign() > 0 {
+			if k, ok := isMask(yl); ok && k < w {
+				return EMod(x, BigLit(pow2(k)))
+			}
+		}
+		if okx && xl.Sign() > 0 {
+			if k, ok := isMask(xl); ok && k < w {
+				return EMod(y, BigLit(pow2(k)))
+			}
+		}
+	}
 	// exact treatment of single-bit masks 1<<k (k < width) and their complements
 	if !signed {
 		// a | b where a is a multiple of 2^k and b < 2^k (disjoint bit ranges): a + b
